@@ -33,7 +33,7 @@ def gen_scenario(rng, idx):
         elif k < 0.47:
             items.append(["carry", {}, [rng.choice(tracked)]])
         elif k < 0.57:
-            items.append(["track", {"m": rng.choice([None, method])}, [p]])
+            items.append(["track", {"m": rng.choice([None, method]), "nc": rng.random() < 0.3}, [p]])
         elif k < 0.72:
             s = rng.choice(tracked)
             d = rng.choice(sorted(files) + ["new.txt", "d/new.txt", "o/", "d/"])     # existing (tracked or not) or new destinations
@@ -41,7 +41,7 @@ def gen_scenario(rng, idx):
         elif k < 0.87:
             s = rng.choice(tracked)
             d = rng.choice(sorted(files) + ["mv.txt", "d/mv.txt", "o/"])
-            items.append(["move", {}, s, d])
+            items.append(["move", {"as": rng.choice([None, None, "symlink", "hardlink", "copy"]), "nr": rng.random() < 0.15}, s, d])
         elif k < 0.94:
             items.append(["untrack", {}, [rng.choice(tracked)]])
         else:
@@ -86,7 +86,7 @@ def run_scenario(xvc, sc):
             o = it[1]
             dest_of = {}
             if k == "track":
-                args = ["file", "track"] + (["--recheck-method", o["m"]] if o.get("m") else []) + it[2]
+                args = ["file", "track"] + (["--recheck-method", o["m"]] if o.get("m") else []) + (["--no-commit"] if o.get("nc") else []) + it[2]
             elif k == "carry":
                 args = ["file", "carry-in"] + it[2]
             elif k == "recheck":
@@ -94,7 +94,7 @@ def run_scenario(xvc, sc):
             elif k == "copy":
                 args = ["file", "copy"] + (["--no-recheck"] if o.get("nr") else []) + [it[2], it[3]]
             elif k == "move":
-                args = ["file", "move", it[2], it[3]]
+                args = ["file", "move"] + (["--recheck-method", o["as"]] if o.get("as") else []) + (["--no-recheck"] if o.get("nr") else []) + [it[2], it[3]]
                 dest_of[it[2]] = (it[3] + it[2]) if it[3].endswith("/") else it[3]
             elif k == "untrack":
                 args = ["file", "untrack"] + it[2]
